@@ -1,8 +1,11 @@
 (* C19 — property theorems only. *)
-From Coq Require Import List String ZArith.
-From C19 Require Import Model Spec Proofs.
+From Coq Require Import List String ZArith Bool Ascii.
+From C19 Require Import Model Spec Lex LexProofs Proofs.
 Import ListNotations.
 
-Theorem C19_reload_example : reload (L [Fix 1; Str "s"; Dot [Fix 2] (Fix 3)]) = Ok (L [Fix 1; Str "s"; Dot [Fix 2] (Fix 3)]).
-Proof. exact reload_example. Qed.
-Print Assumptions C19_reload_example.
+(* (1) For EVERY value of the modelled universe inside the guard -- numbers, strings, characters, keywords, proper and
+   dotted lists, vectors, arrays, hash tables, lambdas, nested without bound -- evaluating its load form rebuilds
+   exactly the value (structural equality, finer than slip's Equal). *)
+Theorem C19_load_form_reloads : forall v, loadable v = true -> reload v = Ok v.
+Proof. exact reload_loadable. Qed.
+Print Assumptions C19_load_form_reloads.
